@@ -528,16 +528,53 @@ def armed (d : Dec) (t : ChunkType) (body : Bytes) : Dec :=
 theorem armed_ms (d : Dec) (t : ChunkType) (body : Bytes) : ms (armed d t body) = ms d := rfl
 theorem armed_raw (d : Dec) (t : ChunkType) (body : Bytes) : (armed d t body).raw = body := rfl
 
-theorem feedChunk_of_dispatch (cfg : Cfg) (d d' : Dec) (t : ChunkType) (body : Bytes) (ev : Ev)
-    (hb : body ≠ []) (h : dispatch cfg (armed d t body) t = .ok (d', ev)) :
+/-- is a chunk with this body handed to `parse_chunk`?  Always, except an empty one while empty
+chunks are not parsed -/
+def skipped (body : Bytes) : Bool := body.isEmpty && !parseEmptyChunks
+
+theorem skipped_of_ne (body : Bytes) (hb : body ≠ []) : skipped body = false := by
+  unfold skipped; cases body <;> simp_all
+
+theorem skipped_true (body : Bytes) (h : skipped body = true) : body = [] ∧ parseEmptyChunks = false := by
+  unfold skipped at h
+  cases body with
+  | nil => simp at h; exact ⟨rfl, h⟩
+  | cons x b => simp at h
+
+theorem feedChunk_of_dispatch' (cfg : Cfg) (d d' : Dec) (t : ChunkType) (body : Bytes) (ev : Ev)
+    (hb : skipped body = false) (h : dispatch cfg (armed d t body) t = .ok (d', ev)) :
     feedChunk cfg d (t, body) = .ok d' := by
   unfold feedChunk
-  have : body.isEmpty = false := by cases body <;> simp_all
-  simp only [this, Bool.false_eq_true, if_false, parseChunk]
+  unfold skipped at hb
+  simp only [hb, Bool.false_eq_true, if_false, parseChunk]
   unfold armed at h
   simp only [h]
 
-theorem feedChunk_empty (cfg : Cfg) (d : Dec) (t : ChunkType) : feedChunk cfg d (t, []) = .ok d := rfl
+theorem feedChunk_of_dispatch (cfg : Cfg) (d d' : Dec) (t : ChunkType) (body : Bytes) (ev : Ev)
+    (hb : body ≠ []) (h : dispatch cfg (armed d t body) t = .ok (d', ev)) :
+    feedChunk cfg d (t, body) = .ok d' :=
+  feedChunk_of_dispatch' cfg d d' t body ev (skipped_of_ne body hb) h
+
+theorem feedChunk_skipped (cfg : Cfg) (d : Dec) (t : ChunkType) (body : Bytes) (h : skipped body = true) :
+    feedChunk cfg d (t, body) = .ok d := by
+  unfold feedChunk
+  unfold skipped at h
+  simp only [h, if_true]
+
+/-- today's decoder: an empty chunk changes nothing -/
+theorem feedChunk_empty (cfg : Cfg) (d : Dec) (t : ChunkType) (h : parseEmptyChunks = false) :
+    feedChunk cfg d (t, []) = .ok d :=
+  feedChunk_skipped cfg d t [] (by simp [skipped, h])
+
+theorem nonEmpty_some (b : Bytes) : nonEmpty (some b) = if skipped b then none else some b := by
+  unfold skipped
+  cases b with
+  | nil => simp only [nonEmpty, List.isEmpty_nil, Bool.true_and]; cases parseEmptyChunks <;> rfl
+  | cons x b => simp [nonEmpty]
+
+theorem trnsRead_some (color depth : Nat) (seen : Bool) (b : Bytes) :
+    trnsRead color depth seen (some b) =
+      if skipped b then none else if trnsTaken color seen b then some (trnsStored color depth b) else none := rfl
 
 theorem be32Bytes_ne_nil (n : Nat) (r : Bytes) : be32Bytes n ++ r ≠ [] := by simp [be32Bytes]
 
@@ -616,33 +653,36 @@ theorem feed_exif (b : Bytes) (hf : i.exif = none)
     (hs : ms d = ⟨some i, false, hic, lim, opts, sq⟩) :
     ∃ d', feedChunk cfg d (eXIf, b) = .ok d' ∧
       ms d' = ⟨some { i with exif := nonEmpty (some b) }, false, hic, lim, opts, sq⟩ := by
-  cases b with
-  | nil =>
-    refine ⟨d, rfl, ?_⟩
-    rw [hs]; simp only [nonEmpty, MS.mk.injEq, Option.some.injEq, and_self, and_true]
+  rw [nonEmpty_some]
+  cases hsk : skipped b with
+  | true =>
+    refine ⟨d, feedChunk_skipped cfg d eXIf b hsk, ?_⟩
+    rw [hs]; simp only [if_true, MS.mk.injEq, Option.some.injEq, and_self, and_true]
     cases i; simp_all
-  | cons x b =>
-    have hi : (armed d eXIf (x :: b)).info = some i := congrArg MS.info hs
-    refine ⟨_, feedChunk_of_dispatch cfg d _ eXIf _ _ (by simp)
+  | false =>
+    have hi : (armed d eXIf b).info = some i := congrArg MS.info hs
+    refine ⟨_, feedChunk_of_dispatch' cfg d _ eXIf _ _ hsk
       (by rw [dispatch_eXIf]; exact parseExif_enc _ i hi hf), ?_⟩
-    simp only [ms, armed, setInfo, MS.mk.injEq, nonEmpty] at hs ⊢
+    simp only [ms, armed, setInfo, MS.mk.injEq] at hs ⊢
     simp [hs]
 
 theorem feed_plte (b : Bytes) (hf : i.palette = none) (hl : b.length ≤ lim)
     (hs : ms d = ⟨some i, false, hic, lim, opts, sq⟩) :
     ∃ d', feedChunk cfg d (PLTE, b) = .ok d' ∧
       ms d' = ⟨some { i with palette := nonEmpty (some b) }, false, hic, lim - b.length, opts, sq⟩ := by
-  cases b with
-  | nil =>
-    refine ⟨d, rfl, ?_⟩
-    rw [hs]; simp only [nonEmpty, MS.mk.injEq, Option.some.injEq, List.length_nil, Nat.sub_zero, and_self, and_true]
+  rw [nonEmpty_some]
+  cases hsk : skipped b with
+  | true =>
+    refine ⟨d, feedChunk_skipped cfg d PLTE b hsk, ?_⟩
+    rw [hs, (skipped_true b hsk).1]
+    simp only [if_true, MS.mk.injEq, Option.some.injEq, List.length_nil, Nat.sub_zero, and_self, and_true]
     cases i; simp_all
-  | cons x b =>
-    have hi : (armed d PLTE (x :: b)).info = some i := congrArg MS.info hs
-    have hlim : (armed d PLTE (x :: b)).limit = lim := congrArg MS.limit hs
-    refine ⟨_, feedChunk_of_dispatch cfg d _ PLTE _ _ (by simp)
+  | false =>
+    have hi : (armed d PLTE b).info = some i := congrArg MS.info hs
+    have hlim : (armed d PLTE b).limit = lim := congrArg MS.limit hs
+    refine ⟨_, feedChunk_of_dispatch' cfg d _ PLTE _ _ hsk
       (by rw [dispatch_PLTE]; exact parsePlte_enc _ i hi hf (by rw [hlim]; exact hl)), ?_⟩
-    simp only [ms, armed, setInfo, MS.mk.injEq, nonEmpty] at hs ⊢
+    simp only [ms, armed, setInfo, MS.mk.injEq] at hs ⊢
     simp [hs]
 
 end feed
@@ -650,13 +690,13 @@ end feed
 section feed2
 variable (cfg : Cfg) (d : Dec) (i : Info) (hic : Bool) (lim : Nat) (opts : Options) (sq : Option Nat)
 
-theorem feedChunk_trns_refused (b : Bytes) (hb : b ≠ []) (w : String)
+theorem feedChunk_trns_refused (b : Bytes) (hb : skipped b = false) (w : String)
     (h : dispatch cfg (armed d tRNS b) tRNS = .error (.format w))
     (hs : ms d = ⟨some i, false, hic, lim, opts, sq⟩) (hf : i.trns = none) (hl : b.length ≤ lim) :
     ∃ d', feedChunk cfg d (tRNS, b) = .ok d' ∧ ms d' = ⟨some i, false, hic, lim - b.length, opts, sq⟩ := by
   unfold feedChunk
-  have : b.isEmpty = false := by cases b <;> simp_all
-  simp only [this, Bool.false_eq_true, if_false, parseChunk]
+  unfold skipped at hb
+  simp only [hb, Bool.false_eq_true, if_false, parseChunk]
   unfold armed at h
   simp only [h]
   have hben : benign tRNS = true := by decide
@@ -670,35 +710,37 @@ theorem feedChunk_trns_refused (b : Bytes) (hb : b ≠ []) (w : String)
   simp only [ms, MS.mk.injEq] at hs ⊢
   simp [hs]
 
-/-- tRNS through `parse_chunk`, every case: empty (not parsed), taken (stored in the decoder's
-form), not applicable (skipped as a benign error, though its length is still charged to `Limits`) -/
+/-- tRNS through `parse_chunk`, every case: not parsed (empty, while empty chunks are skipped), taken
+(stored in the decoder's form), not applicable (skipped as a benign error, though its length is still
+charged to `Limits`) -/
 theorem feed_trns (b : Bytes) (hf : i.trns = none) (hl : b.length ≤ lim)
     (hs : ms d = ⟨some i, false, hic, lim, opts, sq⟩) :
     ∃ d', feedChunk cfg d (tRNS, b) = .ok d' ∧
       ms d' = ⟨some { i with trns := trnsRead i.color i.depth i.palette.isSome (some b) }, false, hic,
         lim - b.length, opts, sq⟩ := by
   have hself : ({ i with trns := none } : Info) = i := by cases i; simp_all
-  cases b with
-  | nil =>
-    refine ⟨d, rfl, ?_⟩
-    rw [hs]; simp only [trnsRead, List.isEmpty_nil, if_true, hself, List.length_nil, Nat.sub_zero]
-  | cons x b =>
-    have hi : (armed d tRNS (x :: b)).info = some i := congrArg MS.info hs
-    have hn : (armed d tRNS (x :: b)).haveIdat = false := congrArg MS.haveIdat hs
-    have hlim : (armed d tRNS (x :: b)).limit = lim := congrArg MS.limit hs
-    cases ht : trnsTaken i.color i.palette.isSome (x :: b) with
+  rw [trnsRead_some]
+  cases hsk : skipped b with
+  | true =>
+    refine ⟨d, feedChunk_skipped cfg d tRNS b hsk, ?_⟩
+    rw [hs, (skipped_true b hsk).1]; simp only [if_true, hself, List.length_nil, Nat.sub_zero]
+  | false =>
+    have hi : (armed d tRNS b).info = some i := congrArg MS.info hs
+    have hn : (armed d tRNS b).haveIdat = false := congrArg MS.haveIdat hs
+    have hlim : (armed d tRNS b).limit = lim := congrArg MS.limit hs
+    cases ht : trnsTaken i.color i.palette.isSome b with
     | true =>
-      refine ⟨_, feedChunk_of_dispatch cfg d _ tRNS _ _ (by simp)
+      refine ⟨_, feedChunk_of_dispatch' cfg d _ tRNS _ _ hsk
         (by rw [dispatch_tRNS]; exact parseTrns_taken _ i hi hn hf (by rw [hlim]; exact hl) ht), ?_⟩
-      simp only [ms, armed, setInfo, MS.mk.injEq, trnsRead, ht] at hs ⊢
+      simp only [ms, armed, setInfo, MS.mk.injEq] at hs ⊢
       simp [hs]
     | false =>
       obtain ⟨w, hw⟩ := parseTrns_refused _ i hi hn hf (by rw [hlim]; exact hl) ht
-      obtain ⟨d', h1, h2⟩ := feedChunk_trns_refused cfg d i hic lim opts sq (x :: b) (by simp) w
+      obtain ⟨d', h1, h2⟩ := feedChunk_trns_refused cfg d i hic lim opts sq b hsk w
         (by rw [dispatch_tRNS]; exact hw) hs hf hl
       refine ⟨d', h1, ?_⟩
       rw [h2]
-      simp only [trnsRead, ht, List.isEmpty_cons, Bool.false_eq_true, if_false, hself]
+      simp only [Bool.false_eq_true, if_false, hself]
 
 /-- iCCP -/
 theorem feed_iccp (z : ZCodec) (hz : z.Ok) (ha : CfgAgrees cfg z) (profile : Bytes)
@@ -843,7 +885,7 @@ theorem feed_zTXt (z : ZCodec) (c : ZTXt) (body : Bytes) (h : c.encodeBody z = .
     simp [hs]
 
 theorem feed_iTXt (z : ZCodec) (ha : CfgAgrees cfg z) (c : ITXt) (body : Bytes)
-    (h : c.encodeBody z = .ok body) (hp : c.compressed = false → c.HasText z)
+    (h : c.encodeBody z = .ok body)
     (hl : body.length ≤ lim) (ho : opts.ignoreText = false)
     (hs : ms d = ⟨some i, false, hic, lim, opts, sq⟩) :
     ∃ d' tc, feedChunk cfg d (Framing.iTXt, body) = .ok d' ∧ viewText tc = some (.i (c.readBack z)) ∧
@@ -856,20 +898,13 @@ theorem feed_iTXt (z : ZCodec) (ha : CfgAgrees cfg z) (c : ITXt) (body : Bytes)
   -- the payload is UTF-8 when it is not compressed
   have hutf : c.compressed = false → (utf8Decode p).isSome = true := by
     intro hc
-    obtain ⟨s, hg⟩ := hp hc
-    simp only [ITXt.payload, hc, Bool.false_eq_true, if_false] at hpay
     cases htx : c.text with
     | uncompressed s' =>
-      rw [htx] at hpay
-      simp only [Option.some.injEq] at hpay
+      simp only [ITXt.payload, hc, htx, Bool.false_eq_true, if_false, Option.some.injEq] at hpay
       rw [← hpay, utf8Decode_utf8Encode]; rfl
     | compressed v =>
-      rw [htx] at hpay
-      simp only at hpay
-      simp only [ITXt.getText, OptC.getText, htx, hpay, utf8Coding] at hg
-      cases hu : utf8Decode p with
-      | none => rw [hu] at hg; cases hg
-      | some s' => rfl
+      obtain ⟨_, s', hu⟩ := ITXt.payload_inflated z c v p hc htx hpay
+      rw [hu]; rfl
   have hview : ITXt.decode data (if c.compressed then 1 else 0) 0 (utf8Encode c.languageTag)
       (utf8Encode c.translatedKeyword) p = .ok (c.readBack z) := by
     rw [ITXt.decode_of_fields c data p hk hasc]
@@ -884,7 +919,7 @@ theorem feed_iTXt (z : ZCodec) (ha : CfgAgrees cfg z) (c : ITXt) (body : Bytes)
         simp only [Option.some.injEq] at hpay; subst hpay
         simp only [OptC.compress, utf8Coding]
     | false =>
-      have hu := hutf rfl
+      have hpay0 := hpay
       simp only [Bool.false_eq_true, if_false]
       simp only [ITXt.payload, Bool.false_eq_true, if_false] at hpay
       cases tx with
@@ -892,10 +927,8 @@ theorem feed_iTXt (z : ZCodec) (ha : CfgAgrees cfg z) (c : ITXt) (body : Bytes)
         simp only [Option.some.injEq] at hpay; subst hpay
         rw [utf8Decode_utf8Encode, ITXt.readBack_plain]
       | compressed v =>
-        simp only at hpay
-        cases hd : utf8Decode p with
-        | none => rw [hd] at hu; cases hu
-        | some s => rw [ITXt.readBack_inflated z kw lt tk v p s hpay hd]
+        obtain ⟨hdz, s, hd⟩ := ITXt.payload_inflated z ⟨kw, false, lt, tk, .compressed v⟩ v p rfl rfl hpay0
+        rw [hd, ITXt.readBack_inflated z kw lt tk v p s hdz hd]
   refine ⟨_, .iTXt data c.compressed (utf8Encode c.languageTag) (utf8Encode c.translatedKeyword) p,
     feedChunk_of_dispatch cfg d _ Framing.iTXt _ _ (by rw [hb]; simp)
     (by rw [dispatch_iTXt _ _ (by rw [hopts]; exact ho)]
@@ -1304,7 +1337,6 @@ theorem steps_zTXt (z : ZCodec) (cs : List ZTXt) (d : Dec) (i : Info) (hic : Boo
 
 theorem steps_iTXt (z : ZCodec) (ha : CfgAgrees cfg z) (cs : List ITXt) (d : Dec) (i : Info) (hic : Bool)
     (lim : Nat) (opts : Options) (sq : Option Nat) (hall : ∀ s ∈ cs.map (iTXtStep z), ∃ l, s = .ok l)
-    (hp : ∀ c ∈ cs, c.compressed = false → c.HasText z)
     (hl : (cs.map fun c => bodyLen (c.encodeBody z)).sum ≤ lim) (ho : opts.ignoreText = false)
     (hs : ms d = ⟨some i, false, hic, lim, opts, sq⟩) :
     ∃ d' tcs, feedSteps cfg d (cs.map (iTXtStep z)) = .ok d' ∧
@@ -1320,13 +1352,11 @@ theorem steps_iTXt (z : ZCodec) (ha : CfgAgrees cfg z) (cs : List ITXt) (d : Dec
     simp only [List.map_cons, List.sum_cons, hbl] at hl ⊢
     simp only [feedSteps]
     rw [hlk, feedStep_single]
-    obtain ⟨d1, tc, h1, v1, s1⟩ := feed_iTXt cfg d i hic lim opts sq z ha c body hb
-      (hp c (List.mem_cons_self ..)) (by omega) ho hs
+    obtain ⟨d1, tc, h1, v1, s1⟩ := feed_iTXt cfg d i hic lim opts sq z ha c body hb (by omega) ho hs
     rw [h1]
     simp only
     obtain ⟨d2, tcs, h2, v2, s2⟩ := ih d1 _ (lim - body.length)
-      (fun s hs' => hall s (by simp only [List.map_cons]; exact List.mem_cons_of_mem _ hs'))
-      (fun c' hc' => hp c' (List.mem_cons_of_mem _ hc')) (by omega) s1
+      (fun s hs' => hall s (by simp only [List.map_cons]; exact List.mem_cons_of_mem _ hs')) (by omega) s1
     refine ⟨d2, tc :: tcs, h2, by simp only [List.map_cons, v1, v2], ?_⟩
     rw [s2, info_text_assoc, Nat.sub_sub]
 
@@ -1367,7 +1397,6 @@ from a decoder that has seen nothing — succeeds and leaves an `Info` whose fie
 `expectedInfo m`, with the text chunks of `m` in order. -/
 theorem header_roundtrip (cfg : Cfg) (z : ZCodec) (hz : z.Ok) (ha : CfgAgrees cfg z) (m : MetaConfig)
     (hr : m.InRange) (cs : List Chunk) (h : encodeHeaderChunks z m = .ok cs)
-    (hp : ∀ c ∈ m.iTXt, c.compressed = false → c.HasText z)
     (d0 : Dec) (lim : Nat) (opts : Options) (sq : Option Nat)
     (ho1 : opts.ignoreText = false) (ho2 : opts.ignoreIccp = false) (hl : m.budget z ≤ lim)
     (hs0 : ms d0 = ⟨none, false, false, lim, opts, sq⟩) :
@@ -1460,7 +1489,7 @@ theorem header_roundtrip (cfg : Cfg) (z : ZCodec) (hz : z.Ok) (ha : CfgAgrees cf
     false, (iccWritten m).isSome, lim - A - optLen m.palette - optLen m.trns - T - Z, opts, sq⟩ := by
     rw [hZ] at s9; exact s9
   obtain ⟨d10, t10, h10, v10, s10⟩ := steps_iTXt cfg z ha m.iTXt d9 _ _ _ opts sq
-    (fun s hs => hall s (Or.inr hs)) hp (by rw [hI]; omega) ho1 s9
+    (fun s hs => hall s (Or.inr hs)) (by rw [hI]; omega) ho1 s9
   rw [h10]
   refine ⟨d10, t8 ++ t9 ++ t10, rfl, ?_, ?_⟩
   · simp only [List.map_append, v8, v9, v10, expectedViews]
